@@ -171,7 +171,7 @@ class B:
                 bm[0] &= 0x7F  # type 0 is not a legal bitmap member in presentation form
             if bm[-1] == 0:
                 if self.draw(st.booleans()):
-                    bm[-1] = self.draw(st.integers(1, 255))
+                    bm[-1] = self.draw(st.integers(1, 127 if (w == 0 and n == 1) else 255))
                 else:
                     self.flags.add("text-lossy")  # trailing zero octet cannot be spelled
             self.out += bytes([w, len(bm)]) + bytes(bm)
